@@ -713,7 +713,8 @@ def r_gate(model, rep, tier, only=None):
     for q in sorted(set(table) - set(funcs)):
         # a gated method pulled up into a base class / mixin: the definition the class inherits, analysed as its method
         parts = q.split(".")
-        if len(parts) == 3 and "%s.%s" % (parts[0], parts[1]) in model.classes and parts[2] not in model.cls("%s.%s" % (parts[0], parts[1])).methods:
+        if len(parts) == 3 and "%s.%s" % (parts[0], parts[1]) in model.classes:
+            # (inherited from a base class / mixin, or the known method under a new name)
             try:
                 funcs[q] = model.own_method("%s.%s" % (parts[0], parts[1]), parts[2])
             except AnalysisError:
